@@ -1410,6 +1410,28 @@ Definition k_sync_3a117 : bytes := bs "sync:117"%string.
 Definition k_sync_3a118 : bytes := bs "sync:118"%string.
 Definition k_sync_3a119 : bytes := bs "sync:119"%string.
 Definition k_sync_3a120 : bytes := bs "sync:120"%string.
+(* obs_inval *)
+Definition k_k1 : bytes := bs "k1"%string.
+Definition k_k2 : bytes := bs "k2"%string.
+Definition k_k3 : bytes := bs "k3"%string.
+Definition k_k4 : bytes := bs "k4"%string.
+Definition k_hc : bytes := bs "hc"%string.
+Definition k_p1 : bytes := bs "p1"%string.
+Definition k_p2 : bytes := bs "p2"%string.
+Definition k_p3 : bytes := bs "p3"%string.
+Definition k_p4 : bytes := bs "p4"%string.
+Definition k_p5 : bytes := bs "p5"%string.
+Definition k_p6 : bytes := bs "p6"%string.
+Definition k_p7 : bytes := bs "p7"%string.
+Definition k_p8 : bytes := bs "p8"%string.
+Definition k_p9 : bytes := bs "p9"%string.
+Definition k_p10 : bytes := bs "p10"%string.
+Definition k_p11 : bytes := bs "p11"%string.
+Definition k_p12 : bytes := bs "p12"%string.
+Definition k_p13 : bytes := bs "p13"%string.
+Definition k_p14 : bytes := bs "p14"%string.
+Definition k_p15 : bytes := bs "p15"%string.
+Definition k_p16 : bytes := bs "p16"%string.
 
 (** ---- correspondence cases ---- *)
 Record seen_recv := mkSeenRecv {
